@@ -17,8 +17,6 @@ import (
 var completenessExempt = map[string]string{
 	"pb.ClaimTaskResponse.Mesg":             "only a claimed task has a message (set by assignment under the claimed status)",
 	"pb.CreatePromiseAndTaskResponse.Task":  "only when the task was created with the promise",
-	"pb.CreateCallbackResponse.Callback":    "absent when the promise was already completed",
-	"pb.CreateSubscriptionResponse.Callback": "absent when the promise was already completed",
 }
 
 func ruleConverterCompleteness(c *Ctx) {
@@ -27,7 +25,11 @@ func ruleConverterCompleteness(c *Ctx) {
 		isTarget func(fd *ast.FuncDecl, res types.Type) bool
 	}
 	n := 0
+	var checkLit func(pkName string, info *types.Info, fd *ast.FuncDecl, cl *ast.CompositeLit, occ map[string]int)
 	check := func(pkName string, info *types.Info, fd *ast.FuncDecl, cl *ast.CompositeLit, occ map[string]int) {
+		checkLit(pkName, info, fd, cl, occ)
+	}
+	checkLit = func(pkName string, info *types.Info, fd *ast.FuncDecl, cl *ast.CompositeLit, occ map[string]int) {
 		tv, ok := info.Types[cl]
 		if !ok {
 			return
@@ -70,6 +72,22 @@ func ruleConverterCompleteness(c *Ctx) {
 				continue
 			}
 			missing = append(missing, f.Name())
+		}
+		// nested value literals (Param: promise.Value{…}) are converters of their own
+		for _, el := range cl.Elts {
+			if kv, ok := el.(*ast.KeyValueExpr); ok {
+				v := ast.Unparen(kv.Value)
+				if u, ok := v.(*ast.UnaryExpr); ok {
+					v = ast.Unparen(u.X)
+				}
+				if inner, ok := v.(*ast.CompositeLit); ok {
+					if it, ok := info.Types[inner]; ok {
+						if _, isStruct := it.Type.Underlying().(*types.Struct); isStruct && (strings.HasPrefix(namedPkgPath(it.Type), modPath)) {
+							checkLit(pkName, info, fd, inner, occ)
+						}
+					}
+				}
+			}
 		}
 		n++
 		occ[tn]++
